@@ -110,6 +110,85 @@ mod verif_kani_value_spans {
         kani::cover!(a == b);
         core::mem::forget(raw);
     }
+    // ------------------------------------------------------------------ K14d: despan
+    // making a document editable: every container forgets its own span and those of its
+    // children; a scalar forgets its span and keeps the spanned text
+    fn ascii4() -> ([u8; 4], usize, usize) {
+        let bytes: [u8; 4] = kani::any();
+        kani::assume(bytes[0] < 0x80 && bytes[1] < 0x80 && bytes[2] < 0x80 && bytes[3] < 0x80);
+        let a: usize = kani::any();
+        let b: usize = kani::any();
+        kani::assume(a < b && b <= 4);
+        (bytes, a, b)
+    }
+
+    #[kani::proof]
+    #[kani::unwind(8)]
+    fn k14_despan_array() {
+        let span = any_span();
+        let mut arr = crate::Array::new();
+        arr.span = Some(span.clone());
+        arr.despan("");
+        assert!(arr.span().is_none(), "array keeps its span after despan");
+        let mut aot = crate::ArrayOfTables::new();
+        aot.span = Some(span);
+        aot.despan("");
+        assert!(aot.span().is_none(), "array of tables keeps its span after despan");
+        kani::cover!(true);
+        core::mem::forget(arr);
+        core::mem::forget(aot);
+    }
+
+    #[kani::proof]
+    #[kani::unwind(8)]
+    #[kani::stub(std::hash::RandomState::new, stub_random_state)]
+    fn k14_despan_tables() {
+        let span = any_span();
+        let mut t = crate::Table::new();
+        t.span = Some(span.clone());
+        t.despan("");
+        assert!(t.span().is_none(), "table keeps its span after despan");
+        let mut it = crate::InlineTable::new();
+        it.span = Some(span);
+        it.despan("");
+        assert!(it.span().is_none(), "inline table keeps its span after despan");
+        kani::cover!(true);
+        core::mem::forget(t);
+        core::mem::forget(it);
+    }
+
+    #[kani::proof]
+    #[kani::unwind(8)]
+    fn k14_despan_scalar_and_item() {
+        let (bytes, a, b) = ascii4();
+        let input = match core::str::from_utf8(&bytes) {
+            Ok(s) => s,
+            Err(_) => return,
+        };
+        let v: i64 = kani::any();
+        let mut val = apply_raw(Value::Integer(Formatted::new(v)), a..b);
+        assert!(val.span() == Some(a..b));
+        val.despan(input);
+        assert!(val.span().is_none(), "scalar keeps its span after despan");
+        assert!(val.as_integer() == Some(v), "despan altered the value");
+        match &val {
+            Value::Integer(f) => match f.as_repr().and_then(|r| r.as_raw().as_str()) {
+                Some(s) => assert!(s.as_bytes() == &bytes[a..b], "despanned text is not input[span]"),
+                None => assert!(false, "despan lost the text"),
+            },
+            _ => assert!(false),
+        }
+        let mut item = crate::Item::Value(apply_raw(Value::Integer(Formatted::new(v)), a..b));
+        item.despan(input);
+        assert!(item.span().is_none(), "item keeps its span after despan");
+        kani::cover!(true);
+        core::mem::forget(val);
+        core::mem::forget(item);
+    }
+
+    // Dropped after measurement: an array holding one spanned element (900 s, no verdict: Vec growth
+    // and the element's drop glue); the recursion into children is only covered for Item -> Value.
+
     // PROBE (not registered unless it terminates): table span = header start .. end of last value
     #[kani::proof]
     #[kani::unwind(64)]
